@@ -32,7 +32,8 @@ CONSTANTS Sections,   \* subset of {"bids", "meadows", "mne", "dm", "spm"}
           MaxRdm,     \* Meadows: max participants / multi-arrangement tasks per file
           VolSet,     \* design matrix: volume counts
           SpmMaxRuns, \* SPM: max number of runs
-          SpmPats     \* SPM: data patterns
+          SpmPats,    \* SPM: data patterns
+          SpmEmitMod  \* SPM: emit one in SpmEmitMod run structures
 
 VARIABLES sec, stage, inp, out
 vars == <<sec, stage, inp, out>>
@@ -51,8 +52,7 @@ Join(ps, sep) == IF ps = <<>> THEN <<>>
                  ELSE IF Len(ps) = 1 THEN ps[1]
                  ELSE ps[1] \o <<sep>> \o Join(Tail(ps), sep)
 
-FirstPos(s, sep) == IF \A i \in 1..Len(s) : s[i] # sep THEN 0
-                    ELSE CHOOSE i \in 1..Len(s) : s[i] = sep /\ \A j \in 1..(i - 1) : s[j] # sep
+FirstPos(s, sep) == SelectInSeq(s, LAMBDA x : x = sep)      \* first index or 0 (Java override)
 RECURSIVE SplitAt(_, _)
 SplitAt(s, sep) == LET i == FirstPos(s, sep) IN
                    IF i = 0 THEN <<s>>
@@ -254,9 +254,9 @@ Loaded(vecs, order, sort) ==
   IF sort = 0 THEN [conds |-> order, vec |-> vecs]
   ELSE LET sp == SortPos(order) IN
        [conds |-> Pick(order, sp), vec |-> [r \in 1..Len(vecs) |-> Reorder(vecs[r], Len(order), sp)]]
-AssocOk(L) == LET n == Len(L.conds) IN
-  \A r \in 1..Len(L.vec) : \A p \in 1..n : \A q \in 1..n : p < q =>
-     L.vec[r][Cidx(n, p, q)] = Tok(r, L.conds[p], L.conds[q])
+AssocRow(r, conds, v) == LET n == Len(conds) IN
+  \A p \in 1..n : \A q \in 1..n : p < q => v[Cidx(n, p, q)] = Tok(r, conds[p], conds[q])
+AssocOk(L) == \A r \in 1..Len(L.vec) : AssocRow(r, L.conds, L.vec[r])
 
 \* json files: a list of tasks, flag 1 = multi-arrangement task, 0 = any other task type
 TaskLayouts == {l \in UNION {[1..k -> {0, 1}] : k \in 1..(MaxRdm + 1)} :
@@ -265,11 +265,17 @@ MaPos(l) == SelectSeq([k \in 1..Len(l) |-> k], LAMBDA k : l[k] = 1)
 \* participants of a multi-participant file, in the order of the file's variables
 PartLists == {pl \in UNION {[1..k -> 1..MaxRdm] : k \in 1..MaxRdm} : Cardinality(Range(pl)) = Len(pl)}
 
-MeadowsExpect(i) ==
-  LET d == ParseName(FormatName(i.name))
-      nr == CASE d.shape = "1p1t" -> 1 [] d.shape = "mp1t" -> Len(i.parts) [] OTHER -> Len(MaPos(i.layout))
+\* what the file holds for RDM r: its own stimulus list and vector.  In a multi-participant file every
+\* participant has an own stimulus list; pvar = 1 lists the second participant's stimuli in reverse order.
+FileOrder(i, r) == IF i.pvar = 1 /\ r = 2 THEN Reverse(i.order) ELSE i.order
+MeadowsExpectN(d, i) ==
+  LET nr == CASE d.shape = "1p1t" -> 1 [] d.shape = "mp1t" -> Len(i.parts) [] OTHER -> Len(MaPos(i.layout))
+      \* the RDMs object has ONE stimulus list (the first one of the file, or the sorted one); every value
+      \* is the dissimilarity of the two stimuli its position names, whatever order the file listed them in
       L == Loaded([r \in 1..nr |-> FileVec(r, i.order)], i.order, i.sort)
   IN [conds |-> L.conds, vec |-> L.vec, exp |-> d.exp, ver |-> d.ver, struct |-> d.struct, shape |-> d.shape,
+      ft |-> d.ft,
+      file |-> [r \in 1..nr |-> [order |-> FileOrder(i, r), vec |-> FileVec(r, FileOrder(i, r))]],
       participant |-> CASE d.shape = "mp1t" -> <<>> [] OTHER -> [r \in 1..nr |-> d.part],
       plist |-> IF d.shape = "mp1t" THEN i.parts ELSE <<>>,
       task |-> CASE d.shape = "mp1t" -> [r \in 1..nr |-> d.tname] [] OTHER -> <<>>,
@@ -277,6 +283,7 @@ MeadowsExpect(i) ==
       task_index |-> CASE d.shape = "1p1t" -> <<NumVal(d.tidx)>>
                        [] d.shape = "1pmt" -> [k \in 1..nr |-> MaPos(i.layout)[k] - 1]
                        [] OTHER -> <<>>]
+MeadowsExpect(i) == MeadowsExpectN(ParseName(FormatName(i.name)), i)
 
 (* ============================== (d) MNE ================================== *)
 \* epochs: nE x nC x nT token data, event codes, channel ids, sampling frequency, first sample
@@ -338,12 +345,26 @@ SumN(runs) == FoldFunction(LAMBDA x, acc : x + acc, 0, [k \in 1..Len(runs) |-> r
 
 (* ============================ state machine ============================== *)
 InitBids == /\ sec = "bids" /\ stage = "input" /\ inp \in Entities /\ out = <<>>
+\* the name grammar is varied in full with one small content, the contents in full with one name per
+\* (shape, file type): the two do not interact
+MinOf(S) == CHOOSE x \in S : \A y \in S : x <= y
+CoreName(nm) == /\ nm.ver = MinOf(VerWords) /\ nm.struct = MinOf(StructWords) /\ nm.exp = MinOf(ExpWords)
+                /\ (nm.part # <<>> => nm.part = <<MinOf(AdjWords), DASH, MinOf(PetWords)>>)
+                /\ (nm.tidx # 0 => nm.tidx = MinOf(NumWords))
+                /\ (nm.tname # <<>> => nm.tname = <<MinOf(TaskWords)>>)
 InitMeadows ==
   /\ sec = "meadows" /\ stage = "input" /\ out = <<>>
-  /\ \E nm \in NameDescsM, n \in StimSizes, sort \in {0, 1} : \E order \in Perms(n) :
-       \E parts \in (IF nm.shape = "mp1t" THEN PartLists ELSE {<<>>}),
-          layout \in (IF nm.shape = "1pmt" THEN TaskLayouts ELSE {<<>>}) :
-       inp = [name |-> nm, order |-> order, sort |-> sort, parts |-> parts, layout |-> layout]
+  /\ \E nm \in NameDescsM, sort \in {0, 1} :
+      \/ /\ CoreName(nm)
+         /\ \E n \in StimSizes : \E order \in Perms(n) :
+            \E parts \in (IF nm.shape = "mp1t" THEN PartLists ELSE {<<>>}),
+               layout \in (IF nm.shape = "1pmt" THEN TaskLayouts ELSE {<<>>}) :
+            \E pvar \in (IF nm.shape = "mp1t" /\ Len(parts) >= 2 THEN {0, 1} ELSE {0}) :
+            inp = [name |-> nm, order |-> order, sort |-> sort, parts |-> parts, layout |-> layout, pvar |-> pvar]
+      \/ /\ ~CoreName(nm)
+         /\ inp = [name |-> nm, order |-> <<3, 1, 2>>, sort |-> sort,
+                   parts |-> IF nm.shape = "mp1t" THEN <<2, 1>> ELSE <<>>,
+                   layout |-> IF nm.shape = "1pmt" THEN <<0, 1, 1>> ELSE <<>>, pvar |-> 0]
 InitMne == /\ sec = "mne" /\ stage = "input" /\ out = <<>>
            /\ \E ne \in 1..3, nc \in 1..3, nt \in 1..3, sf \in {20, 100}, first \in {0, 2} :
                 \E codes \in [1..ne -> {11, 12}] :
@@ -389,7 +410,8 @@ FormatParse == (sec = "bids" /\ stage = "parsed") =>
    /\ \A m \in Mutants(inp) : WellFormed(m) <=> (Format(Parse(m)) = m)
 \* b: a look-up changes exactly the entities it names, and the path edit agrees with the entity edit
 LookupFrame == (sec = "bids" /\ stage = "parsed" /\ Valid(inp)) =>
-   \A kind \in LookKinds : LookEnabled(kind, inp) => \A a \in LookArgs :
+   \A kind \in LookKinds : LookEnabled(kind, inp) =>
+    \A a \in (IF kind \in {"tsib", "msib"} THEN LookArgs ELSE {<<0, 0>>}) :
       LET r == LookupEnt(kind, inp, a[1], a[2]) IN
       /\ \A f \in Fields \ Named(kind) : Field(r, f) = Field(inp, f)
       /\ LookupPath(kind, out.path, a[1], a[2]) = Format(r)
@@ -401,7 +423,9 @@ MeadowsAssoc == (sec = "meadows" /\ stage = "done") =>
    /\ AssocOk([conds |-> out.expect.conds, vec |-> out.expect.vec])
    /\ (inp.sort = 1 => \A k \in 1..Len(inp.order) : out.expect.conds[k] = k)
    /\ (inp.sort = 0 => out.expect.conds = inp.order)
-   /\ \A r \in 1..Len(out.expect.vec) : Range(out.expect.vec[r]) = Range(FileVec(r, inp.order))
+   /\ \A r \in 1..Len(out.expect.vec) :
+        /\ Range(out.expect.vec[r]) = Range(out.expect.file[r].vec)       \* a permutation of the file's values
+        /\ AssocRow(r, out.expect.file[r].order, out.expect.file[r].vec)   \* the file itself is token-consistent
 \* d, e: structural
 MneShape == (sec = "mne" /\ stage = "done") =>
    /\ Len(out.meas) = inp.ne /\ Len(out.event) = inp.ne /\ Len(out.name) = inp.nc /\ Len(out.time) = inp.nt
@@ -424,17 +448,18 @@ SpmLaws == (sec = "spm" /\ stage = "done") =>
       /\ \A t \in 1..runs[r].n : out[off[r] + t].den = d2
 
 (* ====================== emission of test vectors ========================= *)
-Sampled == EmitMod = 1 \/ RandomElement(1..EmitMod) = 1
+\* (takes an argument so that TLC does not pre-evaluate it once as a constant)
+Sampled(x) == EmitMod = 1 \/ RandomElement(1..EmitMod) = 1
 Emit ==
   stage = "done" =>
-    CASE sec = "bids" -> ((Valid(inp) \/ Sampled) =>
+    CASE sec = "bids" -> ((Valid(inp) \/ Sampled(stage)) =>
             PrintT(ToJson([sec |-> "bids", e |-> inp, valid |-> Valid(inp), path |-> out.path,
                            looks |-> out.looks, nd |-> NameDescs(inp), fname |-> FName(inp)])))
-      [] sec = "meadows" -> ((out.loadable \/ Sampled) =>
+      [] sec = "meadows" -> ((out.loadable \/ Sampled(stage)) =>
             PrintT(ToJson([sec |-> "meadows", i |-> inp, fname |-> out.fname, loadable |-> out.loadable,
                            expect |-> out.expect])))
       [] sec = "mne" -> PrintT(ToJson([sec |-> "mne", i |-> inp, expect |-> out]))
       [] sec = "dm" -> PrintT(ToJson([sec |-> "dm", i |-> inp, expect |-> out]))
-      [] sec = "spm" -> (Sampled => PrintT(ToJson([sec |-> "spm", i |-> inp, expect |-> out])))
+      [] sec = "spm" -> ((SpmEmitMod = 1 \/ RandomElement(1..SpmEmitMod) = 1) => PrintT(ToJson([sec |-> "spm", i |-> inp, expect |-> out])))
       [] OTHER -> TRUE
 =============================================================================
